@@ -225,12 +225,13 @@ func solveOne(rep *FuncReport, o *Obligation, idx int, opt SolveOptions) {
 			}
 			if x.r.status == "sat" && sawSat == "" {
 				sawSat, satOut = x.name, x.r.output
+				break // a model: no other solver can prove the goal
 			}
 			if x.r.status == "error" && o.Output == "" {
 				o.Output = x.name + ": " + firstLines(x.r.output, 6)
 			}
 		}
-		if o.Status == "proved" {
+		if o.Status == "proved" || sawSat != "" {
 			break
 		}
 	}
